@@ -84,9 +84,19 @@ func runC14(res *lib.Result, tier string, seed int64, args []string) error {
 			// … and globals written through _G in this very file
 			base = "abM1, abM2 = pcall(print)\nacM3, acM4 = 1\nbaM5, xM6 = 1, 2\n_G.abM7 = 1\n_G.xM8 = function() end\n" + base
 		}
+		annCall := pi%10 == 7
+		if annCall {
+			// fixed shape (every tier): the cursor inside the argument list of a call to a function whose parameters carry
+			// ---@param types (plain types: nothing to offer from the annotation) — the names in scope are offered as anywhere
+			base = "---@param acp1 number\n---@param acp2 string\nlocal function acann(acp1, acp2) return acp1, acp2 end\n" + base
+			res.Dist("program.annotated-call-preface")
+		}
 		lines := strings.Split(strings.TrimRight(base, "\n"), "\n")
 		for k := 0; k < nPos; k++ {
 			at := r.Intn(len(lines) + 1)
+			if annCall && at < 3 {
+				at = 3
+			}
 			forceUntil := false
 			if k == 0 {
 				// the first position of a program that has a repeat loop is inside its until-condition
@@ -123,6 +133,12 @@ func runC14(res *lib.Result, tier string, seed int64, args []string) error {
 			ctx := c14Contexts[0]
 			if r.Chance(1, 2) {
 				ctx = c14Contexts[r.Intn(len(c14Contexts))]
+			}
+			if annCall && k == 2 {
+				ctx = [2]string{"local zq = acann(", ")"}
+			}
+			if annCall && k == 3 {
+				ctx = [2]string{"local zq = acann(1, ", ")"}
 			}
 			res.Dist("context." + ctx[0] + "…" + ctx[1])
 			ins := indent + ctx[0] + prefix
@@ -232,14 +248,29 @@ func runC14(res *lib.Result, tier string, seed int64, args []string) error {
 			for _, gname := range splitHexList(gPart) {
 				delete(declared, gname)
 			}
-			if err := lib.WriteWorkspace(dir, map[string]string{"main.lua": src}); err != nil {
+			// every third position the text reaches the server the way typing does: the file on disk and the opened document
+			// hold the program without the cursor line, a first edit appends a line, a second edit brings the final text; the
+			// answer must be the one for the final text (the analysis of an edited document is replaced by every edit)
+			typed := k%3 == 1 && !multiG
+			disk := src
+			if typed {
+				disk = strings.Join(lines, "\n") + "\n"
+			}
+			if err := lib.WriteWorkspace(dir, map[string]string{"main.lua": disk}); err != nil {
 				return err
 			}
 			sess, err := lib.StartSession(dir, lib.AllChecksOptions())
 			if err != nil {
 				return err
 			}
-			sess.DidOpen("main.lua", src)
+			sess.DidOpen("main.lua", disk)
+			if typed {
+				sess.Sync()
+				sess.DidChange("main.lua", []lib.ContentChange{{Text: disk + "local zqfirstedit = 1\nprint(zqfirstedit)\n"}})
+				sess.Sync()
+				sess.DidChange("main.lua", []lib.ContentChange{{Text: src}})
+				res.Dist("delivery.two-edits")
+			}
 			sess.Sync()
 			caseText := fmt.Sprintf("completion at %d:%d (prefix %q) in\n%s", line-1, col, prefix, src)
 			lib.Breadcrumb("C14 " + caseText)
